@@ -179,7 +179,7 @@ def fresh_process(job):
 
 def run(ctx):
     RC.install()
-    RC.RUN_TIMEOUT_S[0] = 10 if ctx.quick else 300
+    RC.RUN_TIMEOUT_S[0] = 10 if ctx.quick else 45
     rng = ctx.rng
     rx = [x for x in RC.rxns() if RC.flags_for(x["mode"])]
     history_jobs = []
